@@ -7,6 +7,7 @@ import (
 	"os"
 	"os/exec"
 	"path/filepath"
+	"strings"
 	"testing"
 	"time"
 
@@ -72,8 +73,11 @@ func scratch() string {
 }
 
 func cleanupRaceDir() {
-	if raceLogPath != "" {
-		_ = os.RemoveAll(filepath.Dir(raceLogPath))
+	// only a private directory made for this run (the driver's); a log path given
+	// directly under the shared scratch root (the determinism self-test does
+	// that) must not take the root with it
+	if d := filepath.Dir(raceLogPath); raceLogPath != "" && strings.HasPrefix(filepath.Base(d), "verif-") {
+		_ = os.RemoveAll(d)
 	}
 }
 
